@@ -16,6 +16,14 @@ real filters one step at a time and compares after EVERY step; when a pipeline h
 whether Environments' implicit Finalize may follow, and that step is replayed too.  A case that is clean step by step
 is then run again as one lazy pipeline (Pipes.join) and through the Environments shortcuts.
 
+REUSE (the spec's REUSE RULE): in the plain rendering every filter OBJECT of the step-wise replay is, right after its
+first use, also applied to the current state of one or two OTHER cases that have the same chain (another action shape /
+flavour / reward kind; the same shape in an environment that starts with the other action set, env `rev`) and then to the
+first input again; the Environments shortcuts are built once over all of these environments so that one filter object is
+shared by several pipelines, read in turn and the first one again.  Every application is compared with the spec's
+expectation for ITS OWN case and the re-read with the first read (identical, also the noise).  A difference that fresh
+objects do not show is reported as <filter>:reused-object:second-environment | first-environment-again | reread-differs.
+
 Signatures are <filter>:<clause>[:<qualifier>]: the filter of the first step whose output differs (or `pipeline` /
 `shortcut`), the clause of the property that fails (rewards, feedbacks, logged-action, logged-reward,
 logged-probability, interactions, raises) and, when the plain form of the same case is fine, the one feature that
@@ -25,7 +33,7 @@ from fractions import Fraction
 from .. import tlc, tracecheck
 
 FINISH = dict(level="model_checking",
-              rule="a case = one TLC-generated (environment, chain of representation filters) replayed step by step through the real filters in two renderings, then as one pipeline and through the Environments shortcuts; distinct = distinct (shape, reward kind, flavour, environment pattern, chain)")
+              rule="a case = one TLC-generated (environment, chain of representation filters) replayed step by step through the real filters in two renderings (each filter object reused on other environments and on the first again), then as one pipeline and through the Environments shortcuts (one pipeline shared by several environments); distinct = distinct (shape, reward kind, flavour, environment pattern, chain)")
 
 LEV = ["a", "b", "c"]          # Lev of the spec
 CLEV = ["u", "v"]              # levels of the categorical that sits in the context
